@@ -330,7 +330,8 @@ theorem smUpdate_length (S : Mat) (v : Vec) : (smUpdate S v).length = S.length :
     grows by the features, the matrix is the fold of `smUpdate` -/
 theorem run_updates (vs : List Vec) : ∀ (a : Agent), a.numel = a.outNumel → (∀ v ∈ vs, v.length = a.numel) →
     (a.run (vs.map Op.update)).numel = a.numel ∧ (a.run (vs.map Op.update)).sem = a.sem ∧
-    (a.run (vs.map Op.update)).lamb = a.lamb ∧ (a.run (vs.map Op.update)).hist = a.hist ++ vs ∧
+    (a.run (vs.map Op.update)).lamb = a.lamb ∧ (a.run (vs.map Op.update)).lamb0 = a.lamb0 ∧
+    (a.run (vs.map Op.update)).hist = a.hist ++ vs ∧
     (a.run (vs.map Op.update)).sigmaInv = vs.foldl smUpdate a.sigmaInv := by
   induction vs with
   | nil => intro a _ _; simp [Agent.run]
@@ -399,7 +400,7 @@ theorem foldl_smUpdate_model (lamb : Rat) (n : Nat) (vs : List Vec) (hv : ∀ v 
     vs.foldl smUpdate (sigma0 .paper lamb n) = a.sigmaInv ∧ a.numel = n ∧
       a.gram = gram (scaledIdentity n lamb) vs := by
   have := run_updates vs (Agent.mk0 .paper lamb n) rfl hv
-  obtain ⟨h1, h2, h3, h4, h5⟩ := this
+  obtain ⟨h1, h2, _, h3, h4, h5⟩ := this
   refine ⟨h5.symm, h1, ?_⟩
   simp only [Agent.gram, h1, h2, h3, h4]
   rfl
